@@ -3,11 +3,14 @@ package checks
 import (
 	"encoding/json"
 	"fmt"
+	"strconv"
 	"strings"
 	"testing"
 
 	"github.com/vektah/gqlparser/v2"
 	"github.com/vektah/gqlparser/v2/ast"
+	"github.com/vektah/gqlparser/v2/parser"
+	"github.com/vektah/gqlparser/v2/validator"
 	"pgregory.net/rapid"
 
 	"verif/harness/kit"
@@ -301,7 +304,16 @@ func checkLinks(s *ast.Schema, d *ast.QueryDocument) (string, int) {
 	return "", l.links
 }
 
-func c09Eval(c valCase) (viol string, links int, validated bool) {
+// c09Case: a (schema, document) pair and how it is validated: "" = LoadQuery (default rules),
+// "walk" = validator.Walk with no observers, otherwise a comma-separated list of indices into
+// allRules (validator.Validate with exactly these rules). Linking is the walker's job and does
+// not depend on which rules listen.
+type c09Case struct {
+	valCase
+	Mode string `json:"mode,omitempty"`
+}
+
+func c09Eval(c c09Case) (viol string, links int, validated bool) {
 	var doc *ast.QueryDocument
 	var schema *ast.Schema
 	if p := kit.Safely(func() {
@@ -311,8 +323,34 @@ func c09Eval(c valCase) (viol string, links int, validated bool) {
 		}
 		schema = s
 		d, errs := gqlparser.LoadQuery(s, c.Query)
-		if len(errs) == 0 {
+		if len(errs) != 0 {
+			return
+		}
+		if c.Mode == "" {
 			doc = d
+			return
+		}
+		// the document passes the full rule set; validate a fresh parse the other way
+		d2, perr := parser.ParseQuery(&ast.Source{Input: c.Query})
+		if perr != nil {
+			return
+		}
+		if c.Mode == "walk" {
+			validator.Walk(s, d2, &validator.Events{})
+			doc = d2
+			return
+		}
+		var rs []validator.Rule
+		for _, f := range strings.Split(c.Mode, ",") {
+			if i, err := strconv.Atoi(f); err == nil && i >= 0 && i < len(allRules) {
+				rs = append(rs, allRules[i])
+			}
+		}
+		if len(rs) == 0 {
+			return
+		}
+		if errs := validator.Validate(s, d2, rs...); len(errs) == 0 {
+			doc = d2
 		}
 	}); p != nil {
 		return "", 0, false // crashes are C02's business
@@ -321,17 +359,20 @@ func c09Eval(c valCase) (viol string, links int, validated bool) {
 		return "", 0, false
 	}
 	v, n := checkLinks(schema, doc)
+	if v != "" && c.Mode != "" {
+		v = "validated with mode " + c.Mode + ": " + v
+	}
 	return v, n, true
 }
 
 func TestC09(t *testing.T) {
 	r := kit.New(t, "C09")
 	defer r.Finish()
-	r.SetRule("G6 schemas x G8 documents that pass validation (fields reached only through fragments, __typename on unions, introspection fields, values in lists in input objects, list-coerced single values, variables nested in literals, operations sharing fragments). " +
+	r.SetRule("G6 schemas x G8 documents that pass validation (fields reached only through fragments, __typename on unions, introspection fields, values in lists in input objects, list-coerced single values, variables nested in literals, operations sharing fragments), validated three ways: LoadQuery with the default rules (half of the cases), validator.Validate with a random non-empty subset of the 27 exported rules, and validator.Walk with no observers. " +
 		"oracle: an independent traversal resolves every node through the loaded schema by name and compares with the annotations: Field.Definition/ObjectDefinition, spread and fragment definitions, inline fragment parents, Directive.Definition/Location, VariableDefinition.Definition, ExpectedType/Definition of every typed value (custom scalar contents excepted), VariableDefinition of every variable use. " +
 		"non-trivial = document with a nested value or a fragment; distinct by (schema, document) text")
 	replay := func(raw json.RawMessage) string {
-		var c valCase
+		var c c09Case
 		_ = json.Unmarshal(raw, &c)
 		v, _, _ := c09Eval(c)
 		return v
@@ -342,7 +383,7 @@ func TestC09(t *testing.T) {
 		return
 	}
 	for _, q := range c08Corpus {
-		c := valCase{Schema: c08Schema, Query: q}
+		c := c09Case{valCase: valCase{Schema: c08Schema, Query: q}}
 		r.Begin("corpus", func() interface{} { return c })
 		v, n, ok := c09Eval(c)
 		r.End()
@@ -359,10 +400,32 @@ func TestC09(t *testing.T) {
 		if !ok {
 			rt.Skip("no case")
 		}
-		c := g.Case
+		c := c09Case{valCase: g.Case}
+		switch rapid.IntRange(0, 5).Draw(rt, "mode") {
+		case 0:
+			c.Mode = "walk"
+		case 1, 2:
+			var idx []string
+			for i := range allRules {
+				if rapid.IntRange(0, 3).Draw(rt, "rule") == 0 {
+					idx = append(idx, strconv.Itoa(i))
+				}
+			}
+			if len(idx) == 0 {
+				idx = []string{strconv.Itoa(rapid.IntRange(0, len(allRules)-1).Draw(rt, "onerule"))}
+			}
+			c.Mode = strings.Join(idx, ",")
+		}
 		r.Begin("doc", func() interface{} { return c })
 		defer r.End()
 		v, n, validated := c09Eval(c)
+		if c.Mode == "" {
+			r.Class("mode:default-rules")
+		} else if c.Mode == "walk" {
+			r.Class("mode:walk-without-observers")
+		} else {
+			r.Class("mode:rule-subset")
+		}
 		if !validated {
 			r.Class("doc:not-validated(skipped)")
 			return
